@@ -60,5 +60,5 @@ Lemma direct_push_not_opcode :
 Proof. vm_compute. reflexivity. Qed.
 
 Lemma sighash_table_ok :
-  map snd sighash_table = [64; 1; 2; 3; 128; 65; 66; 67; 193; 194; 195; 129; 130; 131]%N.
+  map snd sighash_table = [1; 2; 3; 64; 65; 66; 67; 128; 129; 130; 131; 193; 194; 195]%N.   (* the translator emits the table sorted by value *)
 Proof. vm_compute. reflexivity. Qed.
